@@ -676,9 +676,8 @@ def viCommand (fuel : Nat) (key0 : KeyEvent) : EM Cmd := do
         else if c == 'b' then pure (.move (.backwardWord n .vi))
         else if c == 'B' then pure (.move (.backwardWord n .big))
         else if c == 'c' then do
-          setInputMode .insert
           match ← viCmdMotion S U cfg fuel key n with
-          | some mvt => pure (.replace mvt none)
+          | some mvt => do setInputMode .insert; pure (.replace mvt none)
           | none => pure .unknown
         else if c == 'C' then do setInputMode .insert; pure (.replace .endOfLine none)
         else if c == 'd' then do
@@ -1285,7 +1284,7 @@ def searchLoop (mark : Nat) (backup : Text) (backupPos : Nat) :
     let cmd ← nextCmd S U cfg fuel true true
     let mark ← lowerMark mark
     -- `histIdx` (the loop variable at the top of the iteration, `shown_idx` in the Rust) is the entry on
-    -- display: a search that fails goes back to it (repair of D50)
+    -- display: a search that fails goes back to it (repair of D51)
     let doSearch (searchBuf : Text) (start : Nat) (dir : Dir) : EM (Option Cmd) := do
       match (memHist cfg).search searchBuf start dir with
       | some (idx, entry, pos) => do
